@@ -408,6 +408,7 @@ pub fn written(ops: &[Op]) -> Written {
             }
             Op::Touch { .. } => {}
             Op::CloseStdin => w.closes_stdin = true,
+            Op::DeepTree { .. } => {}
         }
     }
     w.status = Some(0);
